@@ -28,6 +28,9 @@ type c18Op struct {
 	Doc  W        `json:"doc"`           // nil: malformed text (reader) / missing file (file)
 	Enc  string   `json:"enc,omitempty"` // yaml | json (reader, file)
 	Opts []c18Opt `json:"opts"`
+	// Clone (add): the document added is a Clone() of the one served under Name at that moment (when there is
+	// one; Doc otherwise): equal content, another instance
+	Clone bool `json:"clone,omitempty"`
 }
 
 type c18Case struct {
@@ -42,13 +45,49 @@ type c18Merge struct {
 
 func init() {
 	register(&Prop{ID: "C18", Run: c18Run,
-		Rule: "histories of AddDocument / AddUnnamedDocument / AddDocumentFromReader / AddDocumentFromFile (<= 30 adds quick, <= 200 thorough) over a name pool of 5 (so re-adds occur), tag pool {t1,t2,t3,*,\"\"}, options none / WithTags / MergeTags / MustCreate (WithTags combined with a policy as the API is used), malformed reader text and missing files; after every add: TaggedSubset for 4 tag sets, AsOne, NamedDocument for every pool name and an unknown one. Every document carries a unique id so a stale document is visible. Kind `combo` (model comparison and no-panic only) also mixes MergeTags+MustCreate on one call and explicit names of the form default__N. Kind `mergefiles` runs the pipeline template function mergeFiles over generated files. A history is non-trivial when it re-adds at least one name; distinct = distinct canonical case JSON.",
+		Rule: "histories of AddDocument / AddUnnamedDocument / AddDocumentFromReader / AddDocumentFromFile (<= 30 adds quick, <= 200 thorough) over a name pool of 5 (so re-adds occur), tag pool {t1,t2,t3,*,\"\"}, options none / WithTags / MergeTags / MustCreate (WithTags combined with a policy as the API is used), malformed reader text and missing files; two in five re-adds of a registered name carry content EQUAL to the stored one (the same reader / file text loaded again, an equal document built separately, a Clone() of the served document), half of them with no option at all, the others with MergeTags, MustCreate or generated options; after every add: TaggedSubset for 4 tag sets, AsOne, NamedDocument for every pool name and an unknown one. Every document carries a unique id so a stale document is visible; for equal content the served INSTANCE is compared by identity with the one handed to the registering call (after every step, for every registered name). Kind `combo` (model comparison and no-panic only) also mixes MergeTags+MustCreate on one call and explicit names of the form default__N. Kind `mergefiles` runs the pipeline template function mergeFiles over generated files. A history is non-trivial when it re-adds at least one name; distinct = distinct canonical case JSON.",
 		Assumptions: []string{
 			"documents are non-nil containers with path-safe keys (no key ends in an index group)",
 			"the YAML/JSON decoding of reader/file documents is C01's concern: the expected document is what dom.Builder().FromReader yields on the same text",
 			"explicit names never have the form default__N in the property's domain (generated names are compared among themselves and with the names present)"}})
 	evals["C18"] = c18Eval
-	shrinkers["C18"] = shrinkJSON
+	shrinkers["C18"] = c18Shrink
+}
+
+// c18Shrink: the generic JSON shrinker, preceded by candidates that empty EVERY occurrence of one document at
+// once (a failure that needs two adds of equal content survives no shrink of one of the two alone).
+func c18Shrink(kind string, raw []byte) [][]byte {
+	var out [][]byte
+	var cs map[string]any
+	if err := json.Unmarshal(raw, &cs); err == nil {
+		ops, _ := cs["ops"].([]any)
+		seen := map[string]bool{}
+		for _, o := range ops {
+			om, _ := o.(map[string]any)
+			if om == nil || om["doc"] == nil {
+				continue
+			}
+			key := canon(om["doc"])
+			if seen[key] || key == `{"m":{}}` {
+				continue
+			}
+			seen[key] = true
+			var saved []any
+			for _, o2 := range ops {
+				if m2, _ := o2.(map[string]any); m2 != nil && m2["doc"] != nil && canon(m2["doc"]) == key {
+					saved = append(saved, m2, m2["doc"])
+					m2["doc"] = map[string]any{"m": map[string]any{}}
+				}
+			}
+			if b, err := json.Marshal(cs); err == nil && len(b) < len(raw) {
+				out = append(out, b)
+			}
+			for i := 0; i+1 < len(saved); i += 2 {
+				saved[i].(map[string]any)["doc"] = saved[i+1]
+			}
+		}
+	}
+	return append(out, shrinkJSON(kind, raw)...)
 }
 
 var c18Names = []string{"a", "b", "c", "d/e.yaml", "n5"}
@@ -99,6 +138,13 @@ func c18GenCase(r *rand.Rand, n int, combo bool) c18Case {
 		names = append(names, "default__1", "default__2")
 	}
 	cs := c18Case{Names: append(append([]string{}, names...), "unknown", "default__1", "@/f1.yaml", "@/f1.json", "@/f2.yaml", "@/f2.json"), Ops: []c18Op{}}
+	// what the set holds under a name if it follows the property (the generator's own bookkeeping, used only to
+	// aim re-adds at EQUAL content: the same text loaded twice, an equal document built separately, a clone)
+	type held struct {
+		doc    W
+		k, enc string
+	}
+	stored := map[string]held{}
 	for i := 0; i < n; i++ {
 		doc := g.Doc(r)
 		if m, ok := wireCont(doc); ok {
@@ -123,6 +169,39 @@ func c18GenCase(r *rand.Rand, n int, combo bool) c18Case {
 			op.Name = pick(r, []string{"f1", "f2"}) + "." + op.Enc
 			if r.Intn(6) == 0 {
 				op.Doc = nil
+			}
+		}
+		key := op.Name
+		if op.K == "file" {
+			key = "@/" + op.Name
+		}
+		if st, ok := stored[key]; ok && op.K != "unnamed" && r.Intn(5) < 2 {
+			// re-add of content equal to the stored one, under every policy (most often with no option at all)
+			op.Doc = deepCopyW(st.doc)
+			if op.K != "file" && r.Intn(4) > 0 {
+				op.K, op.Enc = st.k, st.enc // the way it came in the first time (the same reader text again)
+			}
+			if op.K == "add" && r.Intn(3) == 0 {
+				op.Clone = true
+			}
+			switch r.Intn(8) {
+			case 0, 1, 2, 3:
+				op.Opts = []c18Opt{}
+			case 4:
+				op.Opts = []c18Opt{{K: "merge"}}
+			case 5:
+				op.Opts = []c18Opt{{K: "must"}}
+			}
+		}
+		if op.K != "unnamed" && (op.Doc != nil || op.K == "add") {
+			pol := ""
+			for _, o := range op.Opts {
+				if o.K != "tags" {
+					pol = o.K
+				}
+			}
+			if _, ok := stored[key]; !ok || pol == "" {
+				stored[key] = held{op.Doc, op.K, op.Enc}
 			}
 		}
 		cs.Ops = append(cs.Ops, op)
@@ -318,6 +397,15 @@ func c18Eval(c *Ctx, kind string, raw []byte) {
 	var modelOps []any
 	var generated []string
 	readds := 0
+	// the instance that must be served under a name: the one handed to AddDocument / AddUnnamedDocument by the
+	// call that registered it (for documents that came through a reader: the one served right after that call)
+	inst := map[string]dom.ContainerBuilder{}
+	unstrip := func(n string) string {
+		if strings.HasPrefix(n, "@/") {
+			return filepath.Join(dir, strings.TrimPrefix(n, "@/"))
+		}
+		return n
+	}
 	for i, op := range cs.Ops {
 		// ---- the document as the set will hold it
 		var docW W = op.Doc
@@ -344,12 +432,26 @@ func c18Eval(c *Ctx, kind string, raw []byte) {
 		}
 		// ---- execute
 		var err error
+		var added, servedBefore dom.ContainerBuilder
 		out, txt := guard(func() {
+			if op.K != "unnamed" {
+				servedBefore = ds.NamedDocument(name)
+			}
+			if op.K == "add" || op.K == "unnamed" {
+				added = wireContainer(op.Doc)
+				if op.K == "add" && op.Clone && servedBefore != nil {
+					if cl, ok := servedBefore.Clone().(dom.ContainerBuilder); ok {
+						added = cl
+						docW = nodeWire(cl)
+						c.Dist("add:clone-of-served")
+					}
+				}
+			}
 			switch op.K {
 			case "add":
-				err = ds.AddDocument(name, wireContainer(op.Doc), c18ApiOpts(op.Opts)...)
+				err = ds.AddDocument(name, added, c18ApiOpts(op.Opts)...)
 			case "unnamed":
-				err = ds.AddUnnamedDocument(wireContainer(op.Doc), c18ApiOpts(op.Opts)...)
+				err = ds.AddUnnamedDocument(added, c18ApiOpts(op.Opts)...)
 			case "reader":
 				err = ds.AddDocumentFromReader(name, strings.NewReader(text), c18Dec(op.Enc), c18ApiOpts(op.Opts)...)
 			case "file":
@@ -404,9 +506,15 @@ func c18Eval(c *Ctx, kind string, raw []byte) {
 			expectErr = true
 			c.Dist("input-error")
 		} else if refName != "" {
-			if _, exists := ref.docs[refName]; exists {
+			if old, exists := ref.docs[refName]; exists {
 				readds++
 				c.Dist("readd:" + policy)
+				if old == canon(docW) {
+					c.Dist("readd-equal-content:" + policy)
+					if len(op.Opts) == 0 {
+						c.Dist("readd-equal-content:no-options-at-all")
+					}
+				}
 				switch policy {
 				case "must":
 					expectErr = true
@@ -425,6 +533,39 @@ func c18Eval(c *Ctx, kind string, raw []byte) {
 			}
 		}
 		step := map[string]any{"err": err != nil, "asOne": asOne}
+		if direct && refName != "" {
+			out, txt = guard(func() {
+				servedNow := ds.NamedDocument(unstrip(refName))
+				_, known := inst[refName]
+				replaces := !expectErr && (!known || policy == "none")
+				switch {
+				case !replaces:
+				case added != nil:
+					// "the default makes the newly added document ... the one served under that name"
+					inst[refName] = added
+				default:
+					// came through a reader: a document decoded by this call, so not the instance served before
+					c.Direct("re-add-from-reader-serves-the-newly-read-document", servedNow == nil || servedNow != servedBefore,
+						map[string]any{"step": i, "name": refName, "policy": policy})
+					inst[refName] = servedNow
+				}
+				for _, n := range ref.order {
+					want, ok := inst[n]
+					if !ok {
+						continue
+					}
+					got := ds.NamedDocument(unstrip(n))
+					clause := "NamedDocument-is-the-registered-instance"
+					if n == refName && !replaces {
+						clause = "must-create/merge-tags/failed-add-keep-the-stored-instance"
+					} else if n == refName {
+						clause = "NamedDocument-is-the-newly-added-instance"
+					}
+					c.Direct(clause, got == want, map[string]any{"step": i, "name": n, "policy": policy, "served": nodeWire(got), "registered": nodeWire(want)})
+				}
+			})
+			c.Direct("no-panic(NamedDocument)", out == "ok", txt)
+		}
 		if direct {
 			c.Direct("error-iff-mustcreate-on-existing-or-bad-input", (err != nil) == expectErr, map[string]any{"step": i, "err": errTag(err), "expected_err": expectErr})
 			c.Direct("AsOne-all-in-insertion-order", asOne.O != "ok" || canon(asOne.Names) == canon(ref.order), map[string]any{"step": i, "got": asOne.Names, "want": ref.order})
